@@ -1,0 +1,70 @@
+//go:build verif
+
+// Contracts for TSIG transaction signatures (tsig.go).  Comment-only file.
+
+package dns
+
+// the three digest-input serialisers only move forward inside their buffer
+//@ func packTsigWire [C11]
+//@   requires tw != nil
+//@   ensures ok: ret1 == nil ==> 0 <= ret0 && ret0 <= len(msg)
+//@   writes msg
+//@ func packMacWire [C11]
+//@   requires mw != nil
+//@   ensures ok: ret1 == nil ==> ret0 == 2 + len(mw.MAC) / 2 && ret0 <= len(msg)
+//@   writes msg
+//@ func packTimerWire [C11]
+//@   requires tw != nil
+//@   ensures ok: ret1 == nil ==> ret0 == 8 && ret0 <= len(msg)
+//@   writes msg
+
+// digest input: [request MAC] message [TSIG variables | timers]
+//@ func tsigBuffer [C11]
+//@   requires rr != nil && len(msgbuf) >= 12
+//@   assert at "if requestMAC != @1" id: msgbuf[0] == rr.OrigId / 256 && msgbuf[1] == rr.OrigId % 256
+//@   exit macpart: ret1 == nil && len(requestMAC) > 0 ==> len(ret0) == 2 + len(requestMAC) / 2 + len(msgbuf) + len(tsigvar)
+//@   exit nomac:  ret1 == nil && len(requestMAC) == 0 ==> len(ret0) == len(msgbuf) + len(tsigvar)
+//@   exit timers: ret1 == nil && timersOnly ==> len(tsigvar) == 8
+
+// stripTsig never indexes outside the message and hands back a prefix of it
+//@ func stripTsig [C11]
+//@   ensures some: ret2 == nil ==> ret1 != nil
+//@   ensures pre: ret2 == nil ==> ref(ret0) == ref(msg) && sliceoff(ret0) == sliceoff(msg)
+//@   ensures len: ret2 == nil ==> 12 <= len(ret0) && len(ret0) <= len(msg)
+//@   loop * invariant 12 <= off && off <= len(msg)
+//@   loop 2 invariant 0 <= tsigoff && tsigoff <= len(msg) && (i > 0 ==> 12 <= tsigoff) && 0 <= i
+//@   assume at "rr = extra.(*TSIG)" typetable: isptrtype(extra, TSIG)
+
+// verification order (RFC 8945 5.2): MAC first, then the time window; success implies both
+//@ func tsigVerify [C11]
+//@   requires provider != nil
+//@   exit mac:  ret0 == nil ==> callres("Verify") == nil
+//@   exit time: ret0 == nil ==> (now >= tsig.TimeSigned ==> now - tsig.TimeSigned <= tsig.Fudge) && (now < tsig.TimeSigned ==> tsig.TimeSigned - now <= tsig.Fudge)
+
+// the built-in HMAC provider accepts only when the recomputed MAC equals the one in the record
+//@ func (tsigHMACProvider).Verify [C11]
+//@   requires t != nil
+//@   exit eq: ret0 == nil ==> callres("Equal")
+//@ func (tsigHMACProvider).Generate [C11]
+//@   requires t != nil
+//@ func (tsigSecretProvider).Verify [C11]
+//@   requires t != nil
+//@   exit key: ret0 == nil ==> ok
+//@ func (tsigSecretProvider).Generate [C11]
+//@   requires t != nil
+//@   exit key: ret1 == nil ==> ok
+
+// IsTsig: a non-nil result is the last additional record, of dynamic type *TSIG
+//@ func (*Msg).IsTsig [C11 C09]
+//@   opt no-safety
+//@   requires dns != nil
+//@   ensures last: ret0 != nil ==> len(dns.Extra) > 0 && isptrtype(dns.Extra[len(dns.Extra)-1], TSIG) && asptr(dns.Extra[len(dns.Extra)-1], TSIG) == ret0
+//@   pure
+
+// TsigGenerate: the TSIG stub is taken off the message, the message is packed, the MAC computed over
+// tsigBuffer's octets, and the completed TSIG appended with ARCOUNT = remaining additional records + 1
+//@ func TsigGenerateWithProvider [C11]
+//@   requires m != nil && provider != nil
+//@   may-panic
+//@   exit arcount: ret2 == nil ==> ret0[10] * 256 + ret0[11] == (len(m.Extra) + 1) % 65536
+//@   exit shrunk: ret2 == nil ==> len(m.Extra) == old(len(m.Extra)) - 1
